@@ -183,7 +183,8 @@ def source_labels(tok, tier, wide):
     core, extra = fragments(tok)
     full = core + extra
     out = set(full)
-    for t in itertools.product(full if wide else core, repeat=2):
+    for t in itertools.product(
+            full if (wide or tier == 'thorough') else core, repeat=2):
         out.add(''.join(t))
     if wide and tier == 'thorough':
         for t in itertools.product(core, repeat=3):
